@@ -479,6 +479,28 @@ def mutate(rnd, text):
         return bytes(b)
     return bytes(rnd.randrange(256) for _ in range(rnd.randrange(1, 12)))
 
+def reuse_texts(rnd, n):
+    """the string builder keeps its scratch buffer when a string turns out to be a duplicate (or a repeated key): valid texts
+    made of strings whose lengths sit on the buffer's capacity steps, some of them repeated, so that a string is built in a
+    buffer left over from a longer or shorter one"""
+    out = []
+    for _ in range(n):
+        lens = [0, 1, 30, 31, 31, 31, 32, 33, 62, 63, 63, 64, 65, 126, 127, 128]
+        strs, items = [], []
+        for _ in range(rnd.randrange(3, 8)):
+            if strs and rnd.random() < 0.4:
+                t = rnd.choice(strs)
+            else:
+                t = "".join(rnd.choice("abcdefgh-_") for _ in range(rnd.choice(lens)))
+                strs.append(t)
+            items.append(t)
+        form = rnd.randrange(3)
+        if form == 0: text = "[" + ",".join('"%s"' % t for t in items) + "]"
+        elif form == 1: text = "{" + ",".join('"%s":"%s"' % (t, rnd.choice(items)) for t in items) + "}"
+        else: text = "[" + ",".join('{"%s":%d}' % (t, i) for i, t in enumerate(items)) + ',"' + rnd.choice(strs) + '"]'
+        out.append(text.encode())
+    return out
+
 def boundary_json(rnd, n):
     """inputs aimed at the fixed-size edges inside the readers (the 64-byte number buffer, 4-byte keyword reads,
     string-builder growth steps, one-byte length fields), not at the grammar: compared model vs library only"""
@@ -515,6 +537,9 @@ def boundary_json(rnd, n):
             m = rnd.choice([30, 31, 32, 33, 63, 64, 65, 127, 128, 129, 254, 255, 256, 257, 511, 512, 513])
             body = "".join(rnd.choice("abcxyz") for _ in range(m))
             out.append(rnd.choice(['"%s"', '["%s"]', '{"%s":1}', '{"k":"%s"}', '["%s","%s"]'.replace("%s", "%s", 1)]).replace("%s", body).encode())
+    k = len(out)
+    for text in reuse_texts(rnd, max(20, n // 3)):
+        out.insert(rnd.randrange(k + 1), text)
     return out[:n]
 
 TOKENS = [b"[", b"]", b"{", b"}", b",", b":", b'"a"', b"'b'", b"k", b"1", b"-2.5e3", b"true", b"false", b"null",
